@@ -311,10 +311,14 @@ theorem facts_write_atomic :
   ⟨by decide, by decide⟩
 
 /-- **Every kind of sender is subject to `max_send_delay`**: a notification, a request, the
-response to an incoming request and a batch, each blocked on a full send buffer, get the
+response to an incoming request, a batch with a request in it, a batch of notifications only,
+and the error reply to an undecodable message, each blocked on a full send buffer, get the
 connection aborted at exactly the delay (real session + transport protocol on the fake asyncio
-transport, both transports, run each check). -/
-theorem facts_single_write_path : Facts.C15.sendersBounded = [true, true, true, true] := by decide
+transport through the public API, both transports, run each check).  An empty batch is not a
+sender: the API refuses it and writes nothing. -/
+theorem facts_single_write_path :
+    Facts.C15.sendersBounded = [true, true, true, true, true, true] ∧
+    Facts.C15.emptyBatchRefused = true := ⟨by decide, by decide⟩
 
 def isAbort : Obs → Bool
   | .abort _ => true
